@@ -7,6 +7,7 @@
   `CSt.run` are in the second half.
 -/
 import Influx.Lemmas.Check
+import Influx.Lemmas.CheckConc
 
 namespace Influx.Props.C33
 open Influx.CheckM Influx.Spec.C33
@@ -265,4 +266,59 @@ theorem repaired_code_reports_failure :
     (ready false maskedSt).code = 503 := by
   decide
 
+/-! ### concurrent registration, signalling and requests -/
+
+/-- **C33 (concurrent), instant semantics.**  In every interleaving of a request
+    with registrations, signals and other requests: the request answers over exactly
+    the gates registered at its snapshot instant, and the status it reports for each is
+    the gate's value at the instant of the corresponding read (`replay` walks the
+    interleaving and takes the values at those instants) — nothing else in the
+    interleaving (other requests, later registrations) influences the answer. -/
+theorem C33_conc_instant (s : CSt) (rid : Nat) (as : List Act)
+    (hfresh : pend s rid = []) (hns : ∀ a ∈ as, a ≠ .reqSnapshot rid)
+    (resp : ReadyResp)
+    (h : replay rid s.gates (List.range s.gates.length) [] as = some resp) :
+    (rid, resp) ∈ (s.run (.reqSnapshot rid :: as)).done := by
+  simp only [CSt.run, List.foldl_cons]
+  refine replay_sound rid as (s.step (.reqSnapshot rid)) ⟨rid, List.range s.gates.length, []⟩ ?_ hns resp h
+  simp only [pend, CSt.step] at hfresh ⊢
+  simp [hfresh]
+
+/-- **C33 (concurrent), no overlapping signal ⇒ exact aggregate.**  If no registration
+    or signal happens between a request's snapshot and its response (other requests may
+    interleave freely) the answer is the aggregate of the gates as they were. -/
+theorem C33_conc_quiescent (s : CSt) (rid : Nat) (seg rest : List Act)
+    (hfresh : pend s rid = [])
+    (hm : ∀ a ∈ seg, a.mutates = false)
+    (hs : ∀ a ∈ seg ++ .reqRespond rid :: rest, a ≠ .reqSnapshot rid)
+    (hr : ∀ a ∈ seg, a ≠ .reqRespond rid)
+    (hreads : readsOf rid seg = s.gates.length) :
+    (rid, respond (s.gates.map gateRes)) ∈
+      (s.run (.reqSnapshot rid :: (seg ++ .reqRespond rid :: rest))).done := by
+  apply C33_conc_instant s rid _ hfresh hs
+  rw [replay_quiescent rid s.gates seg rest _ [] hm hr (by simpa using hreads)]
+  simp [range_filterMap_get]
+
+/-- the aggregate computed by a request is the one the sequential handler computes -/
+theorem respond_eq_ready (g : List (String × Bool)) :
+    respond (g.map gateRes) = ready false { ready := g.map fun x => ⟨.gate, gateRes x⟩ } := by
+  simp only [respond, ready, evaluate, List.map_map, Bool.false_eq_true, ↓reduceIte]
+  rfl
+
+/-- what a request answers, in terms of the values it read: 200 exactly when every
+    read returned "ready"; otherwise 503 listing exactly the gates read as not ready -/
+theorem respond_spec (got : List Res) :
+    ((∀ r ∈ got, r.status = pass) → (respond got).code = 200 ∧ (respond got).checks = []) ∧
+    ((∃ r ∈ got, r.status = fail) →
+      (respond got).code = 503 ∧ (respond got).checks.Perm (got.filter (·.status == fail))) := by
+  constructor
+  · intro h
+    have : overall got ≠ fail := by rw [overall_pass_of_all_pass got h]; exact pass_ne_fail
+    simp [respond, this]
+  · intro h
+    have : overall got = fail := (overall_fail_iff got).2 h
+    simp only [respond, this, ↓reduceIte, true_and]
+    unfold failingChecks
+    rw [filter_fail_eq]
+    exact (sortRes_perm _).filter _
 end Influx.Props.C33
